@@ -253,6 +253,13 @@ impl Run {
     pub fn sig_active(&self, sig: &str) -> bool {
         self.known_sigs.iter().any(|s| s == sig)
     }
+    /// development aid: PV_SECTIONS=a,b restricts a run to the named sections (never set by ./check)
+    fn section_enabled(&self, section: &str) -> bool {
+        match std::env::var("PV_SECTIONS") {
+            Ok(l) if !l.is_empty() => l.split(',').any(|x| section.starts_with(x)),
+            _ => true,
+        }
+    }
     pub fn stopped(&self) -> bool {
         self.stop.load(Ordering::Relaxed)
     }
@@ -316,7 +323,7 @@ impl Run {
     where
         F: Fn(usize, usize, &mut Local) + Sync,
     {
-        if self.stopped() {
+        if self.stopped() || !self.section_enabled(section) {
             return;
         }
         let t0 = Instant::now();
@@ -355,7 +362,7 @@ impl Run {
         S::Value: Clone + std::fmt::Debug,
         F: Fn(&S::Value, &mut Local) -> Check + Sync,
     {
-        if self.stopped() {
+        if self.stopped() || !self.section_enabled(section) {
             return;
         }
         let t0 = Instant::now();
